@@ -5,9 +5,9 @@
    The theorems hold for every lexer configuration whose quote characters are
    neither word characters nor ignored; the configuration of the current tree is
    one (C16_default_cfg_ok). *)
-From Coq Require Import List ZArith Bool Arith.
+From Coq Require Import List ZArith Bool Arith QArith.
 From YV Require Import Common.Corr Gen.CharClass Gen.LexFacts Model.Lexer Model.Literals
-  Lemmas.LexerTotal Lemmas.LiteralsRoundtrip Lemmas.LiteralsTokens.
+  Lemmas.LexerTotal Lemmas.LiteralsRoundtrip Lemmas.LiteralsTokens Lemmas.LiteralsDecimal.
 Import ListNotations.
 Open Scope Z_scope.
 
@@ -151,7 +151,39 @@ Proof.
   change (keywords (default_cfg names)) with keyword_table. rewrite H2. reflexivity.
 Qed.
 
+(* a NUMBER token with a dot: the text handed to float() is <digits>.<digits>, and the
+   rational it spells is all its digits read as one integer over 10^(digits after the
+   dot), i.e. integer part plus fraction.  "The same number as in Python" is thereby
+   reduced to float() being the correctly rounded conversion of that rational, which
+   the oracle of harness/props/c16.py checks against exact integer division. *)
+Theorem C16_decimal_value : forall cfg prev s k n txt, is_d cfg 46 = false ->
+  m_number cfg prev s = MTok k n (VFloat txt) ->
+  exists ip fp, txt = ip ++ 46 :: fp /\ ip <> [] /\ fp <> [] /\
+    forallb (is_d cfg) ip = true /\ forallb (is_d cfg) fp = true /\
+    decimal_q cfg txt = Qmake (dec_value cfg 0 (ip ++ fp)) (Z.to_pos (10 ^ Z.of_nat (length fp))) /\
+    (decimal_q cfg txt == inject_Z (dec_value cfg 0 ip) + Qmake (dec_value cfg 0 fp) (Z.to_pos (10 ^ Z.of_nat (length fp))))%Q.
+Proof. exact decimal_value. Qed.
+
+(* the evaluation route: a statement that is one constant evaluates to the constant's
+   value; for EVERY string the two quoted spellings evaluate to it, and for every string
+   inside the verbatim guard all three spellings evaluate to the same string *)
+Theorem C16_styles_agree : forall cfg,
+  quote_ok cfg 39 = true -> quote_ok cfg 34 = true -> quote_ok cfg 96 = true ->
+  (forall s, eval_literal cfg (spell_sq s) = Some (VText s) /\ eval_literal cfg (spell_dq s) = Some (VText s)) /\
+  (forall s, vb_ok s = true ->
+     eval_literal cfg (spell_sq s) = Some (VText s) /\ eval_literal cfg (spell_dq s) = Some (VText s) /\
+     eval_literal cfg (spell_verbatim s) = Some (VText s)).
+Proof. exact (fun cfg Q1 Q2 Q3 => conj (quoted_styles_agree cfg Q1 Q2) (styles_agree cfg Q1 Q2 Q3)). Qed.
+
 (* ---- the statements are not vacuous ---- *)
+(* the dot is not a digit in the current tree (premise of C16_decimal_value) *)
+Example dot_is_not_a_digit : is_d (default_cfg (fun _ => None)) 46 = false.
+Proof. vm_compute. reflexivity. Qed.
+
+(* 12.50 spells 1250/100 *)
+Example decimal_example : decimal_q (default_cfg (fun _ => None)) [49; 50; 46; 53; 48] = Qmake 1250 100.
+Proof. vm_compute. reflexivity. Qed.
+
 Definition nonames : text -> option Z := fun _ => None.
 
 (* it's  ->  'it\'s' *)
